@@ -40,8 +40,7 @@ pub struct ConnInfo {
     pub qos0_cancel_at: Option<usize>,
     /// some operation on this connection returned a transport/protocol error or it was faulted
     pub had_error: bool,
-    /// write returned Ok(0) at least once (transport contract violation)
-    /// a write that cannot be resumed (QoS 0 PUBLISH, CONNECT) was answered Ok(0)
+    /// a write of the CONNECT was answered Ok(0)
     pub write_zero: bool,
     /// some write was answered Ok(0)
     pub zero_seen: bool,
